@@ -204,9 +204,15 @@ func CheckC09(e *Env) int {
 	// set member this injector does not need
 	for injShape := 0; injShape < 4; injShape++ {
 		for need := 1; need < 4; need++ {
-			for _, link := range []string{"bind", "struct-field", "fields-parent", "nested-two-levels", "other-package-set", "unneeded-set-member"} {
+			for _, link := range []string{"bind", "struct-field", "fields-parent", "nested-two-levels", "other-package-set", "unneeded-set-member", "same-name-provider-called-earlier", "twin-package-provider-called-earlier", "struct-provider-used-twice-then-needing"} {
 				n++
 				b := NewPB(fmt.Sprintf("sg%04d", n), "app", "libn")
+				if link == "twin-package-provider-called-earlier" {
+					// two packages of one name, each with a provider called New
+					b = NewPB(fmt.Sprintf("sg%04d", n), "app", "store", "store")
+					b.P.Pkgs[1].Dir = "usr/store"
+					b.P.Pkgs[2].Dir = "ord/store"
+				}
 				injCu, injErr := injShape&1 != 0, injShape&2 != 0
 				needCu, needErr := need&1 != 0, need&2 != 0
 				top := b.Carrier(0, "Top")
@@ -239,6 +245,25 @@ func CheckC09(e *Env) int {
 					pf := stub(b.Func(1, "NewDep", t0, needCu, needErr))
 					ls := b.Set(1, "LibSet", ItemRef(pf.ID))
 					build = []Ref{SetRef(ls.ID), ItemRef(stub(b.Func(0, "NewTop", top, false, false, t0)).ID)}
+				case "same-name-provider-called-earlier":
+					// a harmless provider of the same name in another package runs first
+					t0 := b.Carrier(1, "Base")
+					t1 := b.Carrier(1, "Dep")
+					pf := stub(b.Func(0, "NewDep", t0, false, false))
+					qf := stub(b.Func(1, "NewDep", t1, needCu, needErr, t0))
+					build = refs(pf, qf, stub(b.Func(0, "NewTop", top, false, false, t1)))
+				case "twin-package-provider-called-earlier":
+					t0 := b.Carrier(1, "Users")
+					t1 := b.Carrier(2, "Orders")
+					pf := stub(b.Func(1, "New", PtrTo(t0), false, false))
+					qf := stub(b.Func(2, "New", PtrTo(t1), needCu, needErr, PtrTo(t0)))
+					build = refs(pf, qf, stub(b.Func(0, "NewTop", top, false, false, PtrTo(t1))))
+				case "struct-provider-used-twice-then-needing":
+					// a struct provider asked for as S and *S (two calls of one provider), then the needing one
+					sd := b.NamedOf(0, "Conf", StructOf(FieldT{Name: "N", Ty: Basic("int")}), "none")
+					t1 := b.Carrier(0, "Dep")
+					qf := stub(b.Func(0, "NewDep", t1, needCu, needErr, sd, PtrTo(sd)))
+					build = refs(stub(b.Func(0, "NewN", Basic("int"), false, false)), b.Struct(sd, true), qf, stub(b.Func(0, "NewTop", top, false, false, t1)))
 				case "unneeded-set-member":
 					t0 := b.Carrier(0, "NotNeeded")
 					t1 := b.Carrier(0, "Needed")
